@@ -216,8 +216,38 @@ def aggregates(body, adt=None, variant=None):
                 continue
             if variant is not None and rv["variant"] != variant:
                 continue
+            # a Result / Option / Poll built inside an inlined helper (sa/inline.py) is the *helper's* return value; rules
+            # asking "where does this function return Ok" only want it if it travels on into this function's own return
+            if last_seg(norm(rv["adt"])) in ("Result", "Option", "Poll") and body.blocks[bi].get("inl") and not _flows_to_return(body, s["place"]):
+                continue
             out.append((bi, si, s))
     return out
+
+
+def _flows_to_return(body, place, depth=6):
+    if place["p"]:
+        return False
+    seen = set()
+    work = [place["l"]]
+    while work and depth > 0:
+        depth -= 1
+        nxt = []
+        for l in work:
+            if l == 0:
+                return True
+            if l in seen:
+                continue
+            seen.add(l)
+            for bi, blk in enumerate(body.blocks):
+                if blk.get("cleanup"):
+                    continue
+                for st in blk["stmts"]:
+                    if st["k"] == "assign" and st["rv"]["k"] == "use" and not st["place"]["p"]:
+                        pl = op_place(st["rv"]["a"][0])
+                        if pl is not None and pl["l"] == l and not pl["p"]:
+                            nxt.append(st["place"]["l"])
+        work = nxt
+    return 0 in work
 
 
 def agg_field(stmt, name):
